@@ -461,8 +461,8 @@ func (g *graph) addBranch(startNode string, branch *GraphBranch, skipData bool) 
 		return fmt.Errorf("branch start node '%s' needs to be added to graph first", startNode)
 	}
 
-	if len(branch.endNodes) == 1 {
-		return fmt.Errorf("number of branches is 1")
+	if len(branch.endNodes) < 2 {
+		return fmt.Errorf("number of branches is %d", len(branch.endNodes))
 	}
 
 	if _, ok := g.handlerPreBranch[startNode]; !ok {
@@ -540,6 +540,8 @@ func (g *graph) updateToValidateMap() error {
 			for i := 0; i < len(g.toValidateMap[startNode]); i++ {
 				endNode := g.toValidateMap[startNode][i]
 
+				// an earlier entry of this list may just have given the start node its type
+				startNodeOutputType = g.getNodeOutputType(startNode)
 				endNodeInputType = g.getNodeInputType(endNode.endNode)
 				if startNodeOutputType == nil && endNodeInputType == nil {
 					continue
